@@ -114,7 +114,138 @@ def c17(ctx):
     ctx.gotest("internal", "^TestVerifC17", race=False, timeout=900)
 
 
+# ---------------------------------------------------------------- C01
+
+REFERENCE_RUNS = [
+    # label, config, mode, known-failing list, peer binary
+    ("refserver", "testing/reference-impls-config.yaml", "server", "testing/referenceserver-known-failing.txt", "referenceserver"),
+    ("refclient", "testing/reference-impls-config.yaml", "client", "testing/referenceclient-known-failing.txt", "referenceclient"),
+]
+GRPC_RUNS = [
+    ("grpcserver", "testing/grpc-impls-config.yaml", "server", "testing/grpcserver-known-failing.txt", "grpcserver"),
+    ("grpcserver-web", "testing/grpc-web-server-impl-config.yaml", "server", "testing/grpcserver-web-known-failing.txt", "grpcserver"),
+    ("grpcclient", "testing/grpc-impls-config.yaml", "client", "testing/grpcclient-known-failing.txt", "grpcclient"),
+]
+SIZE_SUITE = {"client": "Client Message Size", "server": "Server Message Size"}
+
+
+def _c01_one(ctx, bins, label, conf, mode, kf, peer, run=(), skip=(), extra=(), race_label=None, stats=None):
+    """One runner invocation + the oracle of C01 over its output."""
+    import e2e
+    import os
+    repo = e2e.REPO
+    sel = e2e.model_selection(ctx, os.path.join(repo, conf), mode, run, skip)
+    if sel is None:
+        return
+    args = ["-v", "--trace", "--conf", os.path.join(repo, conf), "--mode", mode, "--known-failing", "@" + os.path.join(repo, kf)]
+    for r in run:
+        args += ["--run", r]
+    for s in skip:
+        args += ["--skip", s]
+    args += list(extra) + ["--", bins[peer]]
+    rc, to, text = e2e.run_runner(ctx, bins, args, "c01-" + label, timeout=5400, race_label=race_label)
+    out = e2e.parse_output(text)
+    w = {"run": label, "argv": " ".join(args), "exit": rc}
+    st = stats.setdefault(label, {})
+    st.update({"selected_by_model": len(sel), "total_cases": out["total"], "passed": out["passed"], "failed": out["nfailed"], "info": len(out["info"]), "could_not_run": out["could_not_run"], "exit": rc})
+    if to:
+        ctx.add_violation("c01/%s/timeout" % label, "runner did not finish", dict(w, tail=text[-3000:]))
+        return
+    if out["total"] is None:
+        ctx.add_violation("c01/%s/no-summary" % label, "runner printed no summary (exit %s)" % rc, dict(w, tail=text[-3000:]))
+        return
+    # every selected permutation must have been run: the independent count closes "silently ran fewer"
+    accounted = out["total"] + out["could_not_run"]
+    if accounted != len(sel) or out["could_not_run"]:
+        ctx.add_violation("c01/%s/case-count" % label, "runner accounts for %d cases (+%d could not be run), the independent models select %d" % (out["total"], out["could_not_run"], len(sel)), w)
+    # failures: re-run alone before calling a deviation (timing suites / QUIC accept backlog are load dependent)
+    failing = dict(out["failed"])
+    patterns = e2e.read_patterns(os.path.join(repo, kf))
+    want_info = sorted(n for n in sel if any(e2e.glob_match(p, n) for p in patterns))
+    flaky = []
+    for name, detail in sorted(failing.items())[:40]:
+        still = 0
+        for attempt in range(2):
+            a2 = ["-v", "--trace", "--conf", os.path.join(repo, conf), "--mode", mode, "--run", name, "--max-servers", "1"]
+            if mode == "server":
+                a2 += ["-p", "4"]
+            a2 += ["--", bins[peer]]
+            rc2, to2, t2 = e2e.run_runner(ctx, bins, a2, "c01-%s-rerun" % label, timeout=300, race_label=race_label)
+            o2 = e2e.parse_output(t2)
+            if rc2 != 0 or o2["failed"]:
+                still += 1
+        if still == 2:
+            key = "c01/%s/unexpected-failure/%s" % (label, _name_class(name))
+            ctx.add_violation(key, "permutation %r fails deterministically: %s" % (name, detail[:600]), dict(w, permutation=name, detail=detail[:3000]))
+        else:
+            flaky.append({"name": name, "first_error": detail[:300]})
+    if len(failing) > 40:
+        ctx.add_violation("c01/%s/many-failures" % label, "%d permutations failed" % len(failing), dict(w, examples=sorted(failing)[:20]))
+    st["flaky_reruns"] = flaky
+    # known-failing lists stay exact
+    got_info = sorted(out["info"])
+    if got_info != want_info:
+        missing = [n for n in want_info if n not in got_info]
+        extra_i = [n for n in got_info if n not in want_info]
+        ctx.add_violation("c01/%s/known-failing-not-exact" % label, "expected-failure set differs from what the shipped list matches: listed but not failing as expected %s; failing as expected but not listed %s" % (missing[:5], extra_i[:5]), w)
+    for name in out["unexpected_pass"]:
+        ctx.add_violation("c01/%s/listed-case-passes" % label, "known-failing case %r passed" % name, w)
+    if not failing and not out["unexpected_pass"] and rc != 0 and accounted == len(sel):
+        ctx.add_violation("c01/%s/nonzero-exit" % label, "runner exited %s without reporting a failing case" % rc, dict(w, tail=text[-3000:]))
+    if out["passed"] is not None and out["passed"] + out["nfailed"] + out["expected_failures"] != out["total"]:
+        ctx.add_violation("c01/%s/totals" % label, "summary does not add up: %s" % {k: out[k] for k in ("total", "passed", "nfailed", "expected_failures")}, w)
+    ctx.extra["evaluations"] = ctx.extra.get("evaluations", 0) + (out["total"] or 0)
+    ctx.extra["distinct_nontrivial"] = ctx.extra.get("distinct_nontrivial", 0) + (out["passed"] or 0)
+
+
+def _name_class(name):
+    import re as _re
+    parts = name.split("/")
+    return parts[0] + "/" + _re.sub(r"[^A-Za-z]+", "-", parts[-1])[:40]
+
+
+def c01(ctx):
+    import e2e
+    bins = e2e.build_all(ctx, race=False)
+    if not bins:
+        return
+    stats = {}
+    ctx.extra["runs"] = stats
+    ctx.extra["rule"] = "every permutation the independent models derive from the shipped configs x embedded suites is run by the real binaries exactly as `make runconformance` does; distinct = permutations that passed; quick: message-size suites on a reduced matrix, everything else complete; thorough: complete"
+    import concurrent.futures as cf
+    if ctx.tier == "quick":
+        jobs = []
+        for (label, conf, mode, kf, peer) in REFERENCE_RUNS:
+            jobs.append((label, conf, mode, kf, peer, (), (SIZE_SUITE[mode] + "/**",), ()))
+            jobs.append((label + "-msgsize", conf, mode, kf, peer, (SIZE_SUITE[mode] + "/HTTPVersion:2/**/Compression:COMPRESSION_IDENTITY/TLS:false/**", SIZE_SUITE[mode] + "/HTTPVersion:2/**/Compression:COMPRESSION_GZIP/TLS:false/**"), (), ()))
+        for (label, conf, mode, kf, peer) in GRPC_RUNS:
+            jobs.append((label, conf, mode, kf, peer, (), (), ()))
+        with cf.ThreadPoolExecutor(2) as ex:
+            list(ex.map(lambda j: _c01_one(ctx, bins, j[0], j[1], j[2], j[3], j[4], j[5], j[6], j[7], stats=stats), jobs))
+        rbins = e2e.build_all(ctx, race=True)
+        if rbins:
+            for (label, conf, mode, kf, peer) in REFERENCE_RUNS:
+                _c01_one(ctx, rbins, label + "-race", conf, mode, kf, peer, ("Basic/**", "Duplicate Metadata/**", "TLS Client Certs/**", "Connect with GET/**"), (), (), race_label="c01-race-" + label, stats=stats)
+        ctx.extra["not_exhaustive"] = True
+    else:
+        jobs = [(l, c, m, k, p, (), (), ()) for (l, c, m, k, p) in REFERENCE_RUNS + GRPC_RUNS]
+        with cf.ThreadPoolExecutor(2) as ex:
+            list(ex.map(lambda j: _c01_one(ctx, bins, j[0], j[1], j[2], j[3], j[4], j[5], j[6], j[7], stats=stats), jobs))
+        rbins = e2e.build_all(ctx, race=True)
+        if rbins:
+            for ms in ("1", "8"):
+                for (label, conf, mode, kf, peer) in REFERENCE_RUNS:
+                    _c01_one(ctx, rbins, "%s-race-ms%s" % (label, ms), conf, mode, kf, peer, (), (SIZE_SUITE[mode] + "/**",), ("--max-servers", ms), race_label="c01-race-%s-%s" % (label, ms), stats=stats)
+    ctx.extra["samples"] = [{"run": k, **{kk: vv for kk, vv in v.items() if kk != "flaky_reruns"}} for k, v in list(stats.items())[:6]]
+    ctx.extra["exhaustive_note"] = "thorough tier enumerates the complete permutation space of all five runs"
+
+
 SPECS = {
+    "C01": {"fn": c01, "level": "exploration",
+            "technique": "runtime monitoring of the real binaries end to end (also race-built): the runner's printed verdicts, totals and expected-failure lines are checked by an offline oracle against the permutation set computed by independent models; failing permutations are re-run in isolation before being called deviations",
+            "text": "The five `make runconformance` invocations are executed with binaries built from the tree; the oracle requires zero unexpected failures, an expected-failure set exactly equal to what the shipped known-failing lists match, totals that add up, and a case count equal to the number of permutations the independent config/suite/filter models derive from the same YAML. Quick covers everything except the two message-size suites on the full matrix (those run on HTTP/2 x {identity, gzip} x cleartext) plus a race-built pass; thorough enumerates the whole space and adds race-built runs with --max-servers 1 and 8.",
+            "note": "Load-dependent failures (timing suites, QUIC accept backlog) are re-run alone twice and only deterministic failures count; grpc-web-client-impl-config.yaml needs a browser-driven client and is not run.",
+            "assumptions": ["loopback networking incl. UDP for HTTP/3 works in the sandbox", "the runner's per-case verdict is itself the subject of C03/C04"]},
     "C17": {"fn": c17, "level": "exploration",
             "technique": "runtime monitoring on the wire: plain HTTP/1.1 and h2c client against the real reference server, plain capturing server against the real reference client, random raw-payload definitions; oracle = independent encoder/decoder of the definition",
             "text": "Random RawHTTPResponse definitions are attached to unary, client-stream, server-stream and bidi requests sent to the real reference server over HTTP/1.1 and h2c; the observed status, headers, trailers and body bytes must equal an independent encoding of the definition and contain nothing the handler would have produced. Random RawHTTPRequest definitions are sent by the real reference client to a capturing server. WriteRawMessageContents/WriteRawStreamContents are checked to be invertible by independent decoders.",
